@@ -37,6 +37,9 @@ type C01Mod struct {
 type C01Round struct {
 	Toggle []int `json:"toggle,omitempty"`
 	Twice  bool  `json:"twice,omitempty"` // two concurrent ManageModules calls
+	// During: modules whose enabled flag another goroutine flips while the pass of this round runs (Enable and
+	// Disable are documented to be callable at any time; the next pass applies them)
+	During []int `json:"during,omitempty"`
 }
 
 func genC01(rng *rand.Rand, tier string) *C01Plan {
@@ -106,6 +109,11 @@ func genC01(rng *rand.Rand, tier string) *C01Plan {
 		k := 1 + rng.IntN(3)
 		for i := 0; i < k; i++ {
 			rd.Toggle = append(rd.Toggle, rng.IntN(n))
+		}
+		if !rd.Twice && rng.IntN(4) == 0 {
+			for i, k := 0, 1+rng.IntN(2); i < k; i++ {
+				rd.During = append(rd.During, rng.IntN(n))
+			}
 		}
 		p.Rounds = append(p.Rounds, rd)
 	}
@@ -343,6 +351,36 @@ func execC01(p *C01Plan, rc *simkit.RunCtx) {
 					s.checkOnline(fmt.Sprintf("concurrent ManageModules round %d", ri))
 				}
 				rc.Probe("concurrent-manage")
+			} else if len(rd.During) > 0 {
+				// flags change while the pass runs: which of them this pass still sees is open, so the wanted set
+				// is checked after a following, undisturbed pass only; the ordering clauses hold throughout
+				flipped := make(chan struct{})
+				go func() {
+					for _, t := range rd.During {
+						if t < len(s.mods) {
+							s.mods[t].SetEnabled(!s.mods[t].Enabled())
+						}
+					}
+					close(flipped)
+				}()
+				err := modules.ManageModules()
+				<-flipped
+				rc.H("Manage %d (flags flipped meanwhile) err=%v", ri, err != nil)
+				rc.Probe("enable-during-pass")
+				if err == nil {
+					err = modules.ManageModules()
+					rc.H("Manage %d (follow-up) err=%v", ri, err != nil)
+				} else {
+					rc.Probe("enable-during-pass-error")
+					// a pass that gave up may have left work undone; the next one completes it
+					err = modules.ManageModules()
+					rc.H("Manage %d (follow-up after error) err=%v", ri, err != nil)
+				}
+				if err != nil {
+					s.anyFailure = true
+				} else {
+					s.checkOnline(fmt.Sprintf("ManageModules round %d (pass following flag changes)", ri))
+				}
 			} else {
 				err := modules.ManageModules()
 				rc.H("Manage %d err=%v", ri, err != nil)
@@ -560,14 +598,14 @@ func checkC01(p *C01Plan, rc *simkit.RunCtx) {
 func shrinkC01(p *C01Plan) []any {
 	var out []any
 	clone := func() *C01Plan {
-		q := &C01Plan{Mgmt: p.Mgmt, Anomaly: p.Anomaly}
+		q := &C01Plan{Mgmt: p.Mgmt, Anomaly: p.Anomaly, EarlyShutdown: p.EarlyShutdown}
 		for _, m := range p.Mods {
 			m2 := m
 			m2.Deps = append([]int(nil), m.Deps...)
 			q.Mods = append(q.Mods, m2)
 		}
 		for _, r := range p.Rounds {
-			q.Rounds = append(q.Rounds, C01Round{Toggle: append([]int(nil), r.Toggle...), Twice: r.Twice})
+			q.Rounds = append(q.Rounds, C01Round{Toggle: append([]int(nil), r.Toggle...), Twice: r.Twice, During: append([]int(nil), r.During...)})
 		}
 		return q
 	}
@@ -611,6 +649,23 @@ func shrinkC01(p *C01Plan) []any {
 				}
 			}
 			q.Rounds[k].Toggle = nt
+			var nd []int
+			for _, t := range q.Rounds[k].During {
+				switch {
+				case t == i:
+				case t > i:
+					nd = append(nd, t-1)
+				default:
+					nd = append(nd, t)
+				}
+			}
+			q.Rounds[k].During = nd
+		}
+		switch {
+		case q.EarlyShutdown == i+1:
+			continue
+		case q.EarlyShutdown > i+1:
+			q.EarlyShutdown--
 		}
 		out = append(out, q)
 	}
@@ -657,6 +712,11 @@ func shrinkC01(p *C01Plan) []any {
 		if r.Twice {
 			q := clone()
 			q.Rounds[ri].Twice = false
+			out = append(out, q)
+		}
+		if len(r.During) > 0 {
+			q := clone()
+			q.Rounds[ri].During = r.During[1:]
 			out = append(out, q)
 		}
 	}
